@@ -403,7 +403,13 @@ def levels(ctx, env):
         if rng.random() < 0.5:
             q = Q(q.magnitude * 1000, P["milli"] * q.unit) if q.unit.prefix.base == 0 else q
         mm = Measurement(q, rng.choice([0, 0.1 * abs(q.magnitude), 2 * abs(q.magnitude)]))
-        for label, x, y in (("Q-L", q, lv), ("L-L", lv, lv2), ("L-M", lv, mm)):
+        # approximately() of a level, a measurement against something of another dimension or no quantity at all:
+        # == answers (False where nothing can be compared) and answers the same in both orders
+        other_dim = Q(rng.choice([1, 2.5]), U["second"] if q.unit.dimension is not U["second"].dimension else U["meter"])
+        extras = [("L-approx(L)", lv2, m.approximately(lv, rng.choice([1e-6, 0.2]))), ("Q-approx(L)", q, m.approximately(lv, rng.choice([1e-6, 0.2]))),
+                  ("M-Q-other-dimension", mm, other_dim), ("M-M-other-dimension", mm, Measurement(other_dim, 0.5)),
+                  ("M-number", mm, rng.choice([5, 2.5, "text", None])), ("L-Q-other-dimension", lv, other_dim)]
+        for label, x, y in [("Q-L", q, lv), ("L-L", lv, lv2), ("L-M", lv, mm)] + extras:
             ctx.count("evaluations")
             ctx.count(f"pairs/{label}")
             try:
@@ -412,5 +418,7 @@ def levels(ctx, env):
                 ctx.violation(f"C12:{label}:comparison-raised:{type(e).__name__}", f"{x!r} == {y!r} raised {type(e).__name__}: {e}", {"x": repr(x), "y": repr(y)})
                 continue
             ctx.distinct((label, str(lu), str(lu2), str(q.unit), e1))
+            if ("other-dimension" in label or label == "M-number") and (e1 or e2):
+                ctx.violation(f"C12:{label}:equal-although-incomparable", f"{x!r} == {y!r} is {e1}, reverse {e2}", {"x": repr(x), "y": repr(y)})
             if e1 != e2 or n1 != n2 or e1 == n1:
                 ctx.violation(f"C12:{label}:eq-not-symmetric", f"{x!r} == {y!r} is {e1}, reverse {e2}; != {n1}/{n2}", {"x": repr(x), "y": repr(y)})
